@@ -9,6 +9,7 @@ CONSTANTS
   BufLens = {0}
   EszVals = {1}
   AtomVals = {1}
+  Scripts = {}
   WrapArm = FALSE
   Check = {"zero"}
 POSTCONDITION Accepted
